@@ -30,6 +30,9 @@ def _load_mutants(pid: str) -> list[dict]:
         out += list(mod.MUTANTS)
     except ModuleNotFoundError:
         pass
+    # further corpora of the same property kept in separate files: mutants/<pid>_<topic>.py
+    for extra in sorted((HERE / "mutants").glob(f"{pid.lower()}_*.py")):
+        out += list(importlib.import_module(f"mutants.{extra.stem}").MUTANTS)
     # seeded changes collected from independent sub-agents (seeded/<id>/patch.diff + meta.json)
     seeded = VERIF / "seeded"
     if seeded.is_dir():
